@@ -521,7 +521,7 @@ fn read_value(cur: &mut SourceCursor, song: &mut Song) -> Option<Token> {
             cur.next();
             if cur.is_numeric() {
                 let num = cur.get_int(0);
-                return Some(Token::new_const(TokenType::ConstInt, -1 * num, None, TokenValueType::INT));
+                return Some(Token::new_const(TokenType::ConstInt, num.wrapping_neg(), None, TokenValueType::INT));
             }
             // '-' * value
             let token_opt = read_value(cur, song);
@@ -1528,9 +1528,9 @@ fn read_def_rhythm_macro(cur: &mut SourceCursor, song: &mut Song) {
 fn read_fadein(cur: &mut SourceCursor, song: &mut Song, dir: isize) -> Token {
     let arg = read_arg_value(cur, song);
     let ia = if dir >= 1 {
-        SValue::from_int_array(vec![0, 127, song.timebase * 4 * arg.to_i()])
+        SValue::from_int_array(vec![0, 127, (song.timebase * 4).wrapping_mul(arg.to_i())])
     } else {
-        SValue::from_int_array(vec![127, 0, song.timebase * 4 * arg.to_i()])
+        SValue::from_int_array(vec![127, 0, (song.timebase * 4).wrapping_mul(arg.to_i())])
     };
     return Token::new(TokenType::CConTime, 11, vec![ia]);
 }
